@@ -1337,15 +1337,6 @@ func (r *run) playFam() {
 	default:
 		r.t.Fatalf("c14: unknown family %q", s.Fam)
 	}
-	if os.Getenv("C14_DEBUG") != "" {
-		for _, g := range allGoroutines() {
-			for i, fn := range g.funcs {
-				if strings.Contains(fn, "handleNewStream") {
-					fmt.Println("DBG", g.id, g.state, fn, g.locs[i], "top:", g.funcs[0])
-				}
-			}
-		}
-	}
 	r.atCancel = pointsNow(staleGoroutines)
 	r.cancelAt = hnet.NowMs()
 	r.cancel()
